@@ -11,13 +11,20 @@ import servercases as sc
 
 REQUIRED_THEOREMS = [
     "C03_id_echo",
+    "C03_answer_id",
+    "C03_unusable_id_never_sent",
     "C03_answered_iff",
+    "C03_answer_none_iff",
     "C03_batch_order",
     "C03_one_per_entry",
     "C03_empty_body",
     "C03_never_empty_array",
     "C03_single",
+    # companions of the extracted facts: lean/JRV/Properties/C03Gen.lean (built and audited separately)
     "C03_gen_exceptFaultsCarryId",
+    "C03_gen_notifIds",
+    "C03_gen_batchLoopOverRequest",
+    "C03_gen_safeJdumpsGuarded",
 ]
 
 MONITORS = [("id-echo", sc.monitor_c03)]
@@ -25,7 +32,9 @@ MONITORS = [("id-echo", sc.monitor_c03)]
 RULE = ("ids over absent/null/''/0/negative/fractional/strings/booleans/arrays/objects; batches of calls, notifications, "
         "invalid entries, failing calls, unknown methods, bad arguments in sampled orders up to length 3 (thorough: all 399 "
         "orders x 2 versions x 2 registries) and random up to 6; default, instance and custom dispatchers; callables that "
-        "return, raise or return a value whose conversion fails; distinct_nontrivial as for C02")
+        "return, raise or return a value whose conversion fails or which the JSON library rejects ({(1,2):3}, a set, "
+        "10**5000, an instance — alone and next to serialisable results in a batch), ids without JSON value (beans), "
+        "ids with escaped lone surrogates, batches of 64/120/257/1000 entries; distinct_nontrivial as for C02")
 
 
 def run(ctx):
